@@ -135,7 +135,7 @@ def main():
         nontrivial |= set(r['nontrivial'])
     samples = results[0]['samples'][:4]
     ev = {
-        'property_id': prop, 'tier': args.tier, 'seed': core.SEED, 'level': meta.get('level', 'proof'),
+        'property_id': prop, 'tier': args.tier, 'seed': core.SEED, 'level': meta.get('level', 'proof') if gate['obligations'] > 0 else 'exploration',
         'coverage': {
             'obligations': gate['obligations'], 'discharged': gate['discharged'],
             'checker_cmd': 'cd lean && lake build && lake env lean .lake/Audit_%s.lean  (#print axioms per theorem)%s' % (
